@@ -16,6 +16,10 @@ BODY = [
     ("length-ref-out-of-scope", '<length name="n" type="char"/><field name="k" type="char"/><switch field="k"><case value="1">'
                                 '<field name="s" type="string" length="n"/></case></switch>'),
     ("required-after-optional", '<field name="o" type="char" optional="true"/><field name="r" type="char"/>'),
+    ("required-unnamed-hardcoded-after-optional", '<field name="o" type="char" optional="true"/><field type="char">1</field>'),
+    ("required-named-hardcoded-after-optional", '<field name="o" type="char" optional="true"/><field name="h" type="short">300</field>'),
+    ("required-unnamed-hardcoded-string-after-optional-array",
+     '<array name="o" type="char" optional="true"/><field type="string" length="2">ab</field>'),
     ("required-array-after-optional", '<field name="o" type="char" optional="true"/><array name="r" type="char"/>'),
     ("required-length-after-optional", '<field name="o" type="char" optional="true"/><length name="n" type="char"/><field name="s" type="string" length="n"/>'),
     ("required-after-optional-in-case", '<field name="k" type="char"/><switch field="k"><case value="1"><field name="o" type="char" optional="true"/>'
